@@ -144,6 +144,12 @@ class Acc:
         self.sets = collections.defaultdict(set)  # named sets (e.g. states)
         self.out = []  # generic results handed back to the main process (e.g. successor states)
 
+    def tick(self):
+        """Progress that is not a countable case (one execution of an exploration whose cases are counted elsewhere): restart the hang timer."""
+        if HANG_SEEN:
+            raise HangDetected("a hang was interrupted by the watchdog and absorbed by the code under test; stack then:\n" + HANG_SEEN[0])
+        arm_watchdog()
+
     def case(self, key=None, outcome=None, nontrivial=True, sample=None):
         if HANG_SEEN:  # an earlier hang was interrupted but absorbed by the code under test (e.g. inside an asyncio Task)
             raise HangDetected("a hang was interrupted by the watchdog and absorbed by the code under test; stack then:\n" + HANG_SEEN[0])
